@@ -27,15 +27,18 @@ theorem C05_v2_track_safe (bs : Bytes) (u : Ub) : decodeTrack bs ≠ .ub u := by
   rw [decodeTrack_eq]; exact liftDec_never_ub _ _ _
 theorem C05_v2_beat_safe (bs : Bytes) (u : Ub) : decodeBeat bs ≠ .ub u := by
   rw [decodeBeat_eq]; exact liftDec_never_ub _ _ _
-theorem C05_v2_ovw_safe (bs : Bytes) (u : Ub) : decodeOvw bs ≠ .ub u := by
-  rw [decodeOvw_eq]; exact liftDec_never_ub _ _ _
+/-- `hlen`: the payload is a C++ byte vector (`vector::max_size()` = 2^63 − 1).  The length test computes
+`3 * (num_entries_1 + 1)` in `int64_t`, checked in the Model: this theorem says the tests in front of it
+keep it in range, for every byte string a vector can hold. -/
+theorem C05_v2_ovw_safe (bs : Bytes) (hlen : bs.length < maxCount) (u : Ub) : decodeOvw bs ≠ .ub u := by
+  rw [decodeOvw_eq bs hlen]; exact liftDec_never_ub _ _ _
 theorem C05_v2_cues_safe (bs : Bytes) (u : Ub) : decodeCues bs ≠ .ub u := by
   rw [decodeCues_eq]; exact liftDec_never_ub _ _ _
 theorem C05_v2_loops_safe (bs : Bytes) (u : Ub) : decodeLoops bs ≠ .ub u := by
   rw [decodeLoops_eq]; exact liftDec_never_ub _ _ _
 
 /-- The only exception class of the 2.x payload decoders is `invalid_argument`. -/
-theorem C05_v2_throw_class (bs : Bytes) (e : Exn) :
+theorem C05_v2_throw_class (bs : Bytes) (hlen : bs.length < maxCount) (e : Exn) :
     (decodeTrack bs = .throw e ∨ decodeBeat bs = .throw e ∨ decodeOvw bs = .throw e ∨
       decodeCues bs = .throw e ∨ decodeLoops bs = .throw e) → e = .invalid_argument := by
   have key : ∀ {α} (c : Codec α) (bs : Bytes), liftDec c bs = .throw e → e = .invalid_argument := by
@@ -43,7 +46,7 @@ theorem C05_v2_throw_class (bs : Bytes) (e : Exn) :
     unfold liftDec at h
     split at h <;> simp at h
     exact h.symm
-  rw [decodeTrack_eq, decodeBeat_eq, decodeOvw_eq, decodeCues_eq, decodeLoops_eq]
+  rw [decodeTrack_eq, decodeBeat_eq, decodeOvw_eq bs hlen, decodeCues_eq, decodeLoops_eq]
   rintro (h | h | h | h | h) <;> exact key _ _ h
 
 /-! ## the decompression loops -/
@@ -106,10 +109,10 @@ open EngineModel.V1Proofs
 
 theorem C05_v1_track_safe (bs : Bytes) (u : Ub) : Impl.V1.decodeTrack bs ≠ .ub u := by
   rw [V1Proofs.decodeTrack_eq]; exact ofOpt_never_ub _ _
-theorem C05_v1_ovw_safe (bs : Bytes) (u : Ub) : Impl.V1.decodeOvw bs ≠ .ub u := by
-  rw [V1Proofs.decodeOvw_eq]; exact ofOpt_never_ub _ _
-theorem C05_v1_hires_safe (bs : Bytes) (u : Ub) : Impl.V1.decodeHires bs ≠ .ub u := by
-  rw [V1Proofs.decodeHires_eq]; exact ofOpt_never_ub _ _
+theorem C05_v1_ovw_safe (bs : Bytes) (hlen : bs.length < maxCount) (u : Ub) : Impl.V1.decodeOvw bs ≠ .ub u := by
+  rw [V1Proofs.decodeOvw_eq bs hlen]; exact ofOpt_never_ub _ _
+theorem C05_v1_hires_safe (bs : Bytes) (hlen : bs.length < maxCount) (u : Ub) : Impl.V1.decodeHires bs ≠ .ub u := by
+  rw [V1Proofs.decodeHires_eq bs hlen]; exact ofOpt_never_ub _ _
 theorem C05_v1_cues_safe (bs : Bytes) (u : Ub) : Impl.V1.decodeCues bs ≠ .ub u := by
   rw [V1Proofs.decodeCues_eq]; exact ofOpt_never_ub _ _
 theorem C05_v1_loops_safe (bs : Bytes) (u : Ub) : Impl.V1.decodeLoops bs ≠ .ub u := by
@@ -118,11 +121,11 @@ theorem C05_v1_beat_safe (bs : Bytes) (u : Ub) : Impl.V1.decodeBeat bs ≠ .ub u
   decodeBeat_safe bs u
 
 /-- The only exception class of the 1.x payload decoders is `invalid_argument`. -/
-theorem C05_v1_throw_class (bs : Bytes) (e : Exn) :
+theorem C05_v1_throw_class (bs : Bytes) (hlen : bs.length < maxCount) (e : Exn) :
     (Impl.V1.decodeTrack bs = .throw e ∨ Impl.V1.decodeBeat bs = .throw e ∨ Impl.V1.decodeOvw bs = .throw e ∨
       Impl.V1.decodeHires bs = .throw e ∨ Impl.V1.decodeCues bs = .throw e ∨ Impl.V1.decodeLoops bs = .throw e) →
     e = .invalid_argument := by
-  rw [V1Proofs.decodeTrack_eq, V1Proofs.decodeOvw_eq, V1Proofs.decodeHires_eq, V1Proofs.decodeCues_eq,
+  rw [V1Proofs.decodeTrack_eq, V1Proofs.decodeOvw_eq bs hlen, V1Proofs.decodeHires_eq bs hlen, V1Proofs.decodeCues_eq,
     V1Proofs.decodeLoops_eq]
   rintro (h | h | h | h | h | h)
   · exact ofOpt_throw h
@@ -137,6 +140,55 @@ body of the pre-712766a loops decoder reads the label length past the end. -/
 example : Cur.rd Codec.u8 [] = .ub .oob_read := rfl
 
 end V1
+
+/-! ## signed arithmetic never overflows
+
+Every `int64_t` / `int` sum, difference and product of the codecs whose operands are not bounded by
+their types alone is a CHECKED operation in the Model (`Chk.add64`, `Chk.mul64`, `Chk.sub32`:
+`ub signed_overflow` when the exact result leaves the type): the length tests of the three waveform
+decoders (`w * (n + 1)`), `24 * count` of the 1.x beat grid, and the `int` index difference of the 1.x
+`encode_beatgrid`.  The `_safe` theorems above therefore include "no signed overflow"; the next theorem
+states the reason: under the guards the C++ puts in front of them the checked operations are exact, i.e.
+each Model function equals its reading in unbounded `Int` (`ArithZ.*Z`, Proofs/CheckedArith.lean). -/
+section Arith
+open EngineModel.ArithZ
+
+theorem C05_checked_arith_exact :
+    (∀ bs : Bytes, bs.length < maxCount → Impl.V2.decodeOvw bs = decodeOvwZ bs) ∧
+    (∀ bs : Bytes, bs.length < maxCount → Impl.V1.decodeOvw bs = decodeWaveZ 27 3 Impl.V1.ovwEntry bs) ∧
+    (∀ bs : Bytes, bs.length < maxCount → Impl.V1.decodeHires bs = decodeWaveZ 30 6 Impl.V1.hiresEntry bs) ∧
+    Impl.V1.decodeGrid = decodeGrid1Z ∧
+    (∀ v, Impl.V1.encodeBeat v = encodeBeatZ v) :=
+  ⟨decodeOvw_eq_Z,
+   fun bs h => decodeWave_eq_Z 27 3 (by omega) (by omega) (by omega) _ bs h,
+   fun bs h => decodeWave_eq_Z 30 6 (by omega) (by omega) (by omega) _ bs h,
+   decodeGrid1_eq_Z, encodeBeat_eq_Z⟩
+
+/-- The 1.x beat-data encoder never overflows (nor any other `ub`): it returns bytes or throws. -/
+theorem C05_v1_beat_encode_safe (v : Impl.V1.Beat) (u : Ub) : Impl.V1.encodeBeat v ≠ .ub u := by
+  by_cases h : V1.gridOk v.dflt = true ∧ V1.gridOk v.adj = true
+  · rw [V1Proofs.encodeBeat_ok v h.1 h.2]; simp
+  · rw [V1Proofs.encodeBeat_reject v h]; simp
+
+/-- The guards are what prevents it: without `validate_beatgrid` the `int` difference of the indices
+`−2^31`, `2^31 − 1` overflows; without `count > 32768` the product `24 * 2^59` does; without
+`n > (end - ptr) / w` the sum `(2^63 − 1) + 1` does. -/
+theorem C05_missing_guard_overflows_counterexample :
+    Impl.V1.toWireC [⟨2147483648, 0⟩, ⟨2147483647, 0x3ff0000000000000⟩] = .ub .signed_overflow ∧
+    Chk.mul64 24 (Prim.s64 576460752303423488) = .ub .signed_overflow ∧
+    Chk.add64 (Prim.s64 9223372036854775807) 1 = .ub .signed_overflow :=
+  ⟨toWireC_overflow_counterexample, by decide, by decide⟩
+
+/-- Operand types that bound the result by themselves: the `int64_t` difference of two `int` values
+(1.x grid checks), the `int` sum of a constant and a `uint8_t` (`29 + label_length`, `22 + label_length`). -/
+theorem C05_typed_arith_in_range (a b : UInt32) (l : UInt8) :
+    Chk.sub64 (Prim.s32 a) (Prim.s32 b) = .ok (Prim.s32 a - Prim.s32 b) ∧
+    Chk.add32 29 l.toNat = .ok (29 + (l.toNat : Int)) ∧ Chk.add32 22 l.toNat = .ok (22 + (l.toNat : Int)) :=
+  ⟨sub64_s32 a b, add32_u8 29 (by omega) l, add32_u8 22 (by omega) l⟩
+
+example : (List.replicate 27 (0 : UInt8)).length < maxCount := by decide
+
+end Arith
 
 /-! ## step bound: no embedded count can make a decoder spin
 
